@@ -95,6 +95,43 @@ func LoadModule(rel, tags, goarch string) (*Module, error) {
 	if len(pkgs) == 0 {
 		return nil, fmt.Errorf("load %s: no packages", dir)
 	}
+	// alpha-normalisation of renamed locals (core_alpha.go): reload with an
+	// overlay in which they carry the recorded names again; fall back to the
+	// tree as written if anything about the reload is off
+	{
+		edits := map[string][]alphaEdit{}
+		clean := true
+		for _, p := range pkgs {
+			if len(p.Errors) > 0 || p.TypesInfo == nil {
+				clean = false
+			}
+		}
+		if clean {
+			for _, p := range pkgs {
+				alphaCollect(rel, p, edits)
+			}
+		}
+		if len(edits) > 0 {
+			if ov := alphaOverlay(edits); ov != nil {
+				fset2 := token.NewFileSet()
+				cfg2 := *cfg
+				cfg2.Fset = fset2
+				cfg2.Overlay = ov
+				pkgs2, err2 := packages.Load(&cfg2, patterns...)
+				ok2 := err2 == nil && len(pkgs2) == len(pkgs)
+				if ok2 {
+					for _, p := range pkgs2 {
+						if len(p.Errors) > 0 || p.TypesInfo == nil {
+							ok2 = false
+						}
+					}
+				}
+				if ok2 {
+					pkgs, fset = pkgs2, fset2
+				}
+			}
+		}
+	}
 	m := &Module{Dir: dir, Fset: fset, byPkg: map[string]*packages.Package{}, funcs: map[string]*Func{}, Tags: tags, GOARCH: goarch}
 	var errs []string
 	for _, p := range pkgs {
